@@ -95,7 +95,7 @@ func (P *Prog) networkFields() map[string]string {
 		for _, ci := range callsIn(fn) {
 			c := ci.Common()
 			n := calleeName(c)
-			if n != "io.ReadFull" && n != "encoding/binary.Read" {
+			if n != "io.ReadFull" && n != "io.ReadAtLeast" && n != "encoding/binary.Read" {
 				continue
 			}
 			t, _ := concreteBelowInterface(c.Args[0])
@@ -525,7 +525,7 @@ func (T *Taint) classCall(c *ssa.Call, idx int) pval {
 		return res
 	case "path/filepath.Clean", "path.Clean":
 		// Clean("/" + x): same effect as Join("/", x)
-		if b, ok := stripConv(args[0]).(*ssa.BinOp); ok && b.Op == token.ADD && isConstSlash(b.X) {
+		if startsRooted(args[0]) {
 			return pval{c: ANCH, why: []string{"anchored by Clean(\"/\"+…) at " + P.ipos(c)}}
 		}
 		return T.Class(args[0])
@@ -619,4 +619,21 @@ func pathArgs(c *ssa.CallCommon) []int {
 		}
 	}
 	return nil
+}
+
+// startsRooted: v is a concatenation whose leftmost operand is a constant beginning with "/": Clean of it is a
+// rooted path, in which no ".." survives.
+func startsRooted(v ssa.Value) bool {
+	for d := 0; d < 8; d++ {
+		v = stripConv(v)
+		if s, ok := constString(v); ok {
+			return strings.HasPrefix(s, "/")
+		}
+		b, ok := v.(*ssa.BinOp)
+		if !ok || b.Op != token.ADD {
+			return false
+		}
+		v = b.X
+	}
+	return false
 }
